@@ -34,6 +34,10 @@ type Engine struct {
 	loadTime time.Duration
 	namedTypes []types.Type
 	pruneSolver *PruneSolver
+	fnIDs    map[*ssa.Function]int64
+	fnByID   map[int64]*ssa.Function
+	inits    map[string]*pkgInit
+	shortIdx map[string]*ssa.Function
 }
 
 func LoadEngine(repo string, patterns []string) (*Engine, error) {
@@ -61,7 +65,8 @@ func LoadEngine(repo string, patterns []string) (*Engine, error) {
 	prog.Build()
 	e := &Engine{repo: repo, prog: prog, pkgs: pkgs, ssaPkgs: map[string]*ssa.Package{}, tags: NewTypeTags(),
 		strIDs: map[string]int64{}, strByID: map[int64]string{}, globals: map[*ssa.Global]int64{}, gByObj: map[types.Object]*ssa.Global{},
-		byFn: map[string]*Contract{}, ifaceCt: map[string]*Contract{}, allFuncs: map[string]*ssa.Function{}}
+		byFn: map[string]*Contract{}, ifaceCt: map[string]*Contract{}, allFuncs: map[string]*ssa.Function{},
+		fnIDs: map[*ssa.Function]int64{}, fnByID: map[int64]*ssa.Function{}, inits: map[string]*pkgInit{}}
 	_ = spkgs
 	for _, p := range prog.AllPackages() {
 		e.ssaPkgs[p.Pkg.Path()] = p
@@ -102,7 +107,7 @@ func LoadEngine(repo string, patterns []string) (*Engine, error) {
 }
 
 func (e *Engine) LoadContracts() error {
-	e.cf = &ContractFile{Macros: map[string]*SpecMacro{}, Protects: map[string][]string{}}
+	e.cf = &ContractFile{Macros: map[string]*SpecMacro{}, Protects: map[string][]string{}, GInvs: map[string]*GInv{}}
 	var files []string
 	filepath.Walk(e.repo, func(p string, info os.FileInfo, err error) error {
 		if err == nil && !info.IsDir() && strings.HasPrefix(filepath.Base(p), "zz_contracts") && strings.HasSuffix(p, "_verif.go") {
@@ -112,6 +117,11 @@ func (e *Engine) LoadContracts() error {
 	})
 	sort.Strings(files)
 	for _, f := range files {
+		rel, _ := filepath.Rel(e.repo, filepath.Dir(f))
+		e.cf.curPkg = modPath
+		if rel != "." {
+			e.cf.curPkg = modPath + "/" + filepath.ToSlash(rel)
+		}
 		if err := ParseContractFile(f, e.cf); err != nil {
 			return err
 		}
@@ -328,4 +338,15 @@ func loopHeads(fn *ssa.Function) []*ssa.BasicBlock {
 		}
 	}
 	return out
+}
+
+// feasibleSolver: path feasibility decided by a solver call (used at wide case splits).
+func (e *Engine) feasibleSolver(st *State) bool {
+	if !e.feasible(st) {
+		return false
+	}
+	if e.pruneSolver == nil {
+		e.pruneSolver = &PruneSolver{}
+	}
+	return e.pruneSolver.Feasible(st.assumes)
 }
